@@ -261,7 +261,10 @@ class Kinds:
         """
         stats = {"K1": 0, "K2": 0, "K3": 0, "K4": 0, "K5": 0, "unknown": 0}
         seen = set()
+        from .ir import is_log_call
         for ev in events if events is not None else self.w.events:
+            if is_log_call(ev):
+                continue  # `sample %d/%d` with i + 1: a position printed in a message is not used as an index
             terms = []
             for x in (ev.target, ev.value):
                 if x is not None:
